@@ -461,6 +461,35 @@ META_NOTE = ('Trusted: Coq 8.16.1 kernel (vm_compute only for the closed sweep o
              'no I/O errors; indices below 2^31.')
 
 
+def probe_newline_lookalike(chk, impl, model):
+    """C06, foreign_untouched: a file whose name is a rotated name followed by a newline does NOT follow the
+    sink's scheme, but an unanchored-at-the-very-end `$` of the cleanup pattern (PCRE: `$` also matches before a
+    final newline) would take it for one of the sink's own files: count it, and delete it as the oldest."""
+    found = 0
+    for base, suffix, gz in ((b'my.app', b'log', False), (b'applog', b'', True)):
+        nm = Names(base, suffix)
+        t0 = 19675 * DAY + 1000
+        name = nm.rotated(datestr(19675), b'1', gz) + b'\n'
+        case = {'L': 8, 'N': 2, 'opts': 0, 'gran': 1, 'base': base, 'suffix': suffix, 't0': t0,
+                'ops': [('put', name, b'not a log of this sink\n')] + [('w', b'r%d.yyy' % i) for i in range(3)]}
+        ls, _ = run_impl_one(impl, case)
+        if len(ls) != len(case['ops']) + 1:
+            chk.broke('probe: harness produced no listing', {'kind': 'harness', 'case': case_json(case)}); continue
+        bits, _, _, _ = verdicts(case, model, ls, 'C06')
+        present = [any(n == name and c == b'not a log of this sink\n' for (n, _, c) in l) for l in ls[1:]]
+        fb = first_bad(bits, BIT['C06'])
+        if not all(present) or fb is not None:
+            found += 1
+            chk.fail('C06 falsified on the real RotatingFileSink: the foreign file %r (a rotated name followed by a newline: not a name of '
+                     'the sink\'s scheme) is %s by retention after %d writes (L=8 N=2); the cleanup pattern ends in `$`, which PCRE also '
+                     'matches before a final newline' % (name, 'removed' if not all(present) else 'counted', len(case['ops']) - 1),
+                     {'kind': 'foreign-lookalike-trailing-newline', 'lookalike': 'trailing-newline', 'case': case_json(case),
+                      'name_hex': name.hex(), 'L': 8, 'N': 2, 'options': 0, 'foreign_file_present_after_each_op': present,
+                      'oracle_bits_per_step(c05,c06,c07,c09)': bits,
+                      'implementation_listings': [show_listing(l) for l in ls]}, kind='foreign-lookalike-trailing-newline')
+    return found
+
+
 def run_check(pid):
     chk = vlib.Check(pid)
     bit = BIT[pid]
@@ -572,6 +601,8 @@ def run_check(pid):
             {'kind': 'correspondence', 'case': case_json(dict(c, ops=c['ops'][:i])), 'step': i,
              'implementation': show_listing(parsed[ci][i]) if i < len(parsed[ci]) else None,
              'model': show_listing(ml[i]) if i < len(ml) else None})
+    if pid == 'C06':
+        chk.cov['newline_lookalike_probe_failures'] = probe_newline_lookalike(chk, impl, model)
     if not shape_std and not falsified and not disagreements:
         chk.broke('the decision shapes translated from the source differ from the proven ones but no difference was observed', {'kind': 'shape'})
 
